@@ -24,8 +24,34 @@ func (v *Verifier) fnTermFor(fn *ssa.Function) *Term {
 		v.D.seen["fnfacts:"+name] = true
 		v.D.facts = append(v.D.facts, tNot(tEq(t, tNilF)))
 		v.defineAxioms(fn, t)
+		v.selfFacts(fn, t, nil)
 	}
 	return t
+}
+
+// selfFacts: `selffact` clauses of fn's contract give spec functions their meaning on fn's function value.
+func (v *Verifier) selfFacts(fn *ssa.Function, self *Term, st *State) {
+	con, cpkg := v.contractFor(originOf(fn))
+	if con == nil || len(con.SelfFacts) == 0 {
+		return
+	}
+	est := st
+	if est == nil {
+		est = &State{heap: map[string]*HeapArr{}, ghost: map[string]*Term{}}
+	}
+	env := &Env{v: v, st: est, vars: map[string]Val{"self": {self, fn.Signature}}, pkg: cpkg, frame: &Frame{fn: fn}}
+	for _, sf := range con.SelfFacts {
+		g, err := env.evalBool(sf.Expr)
+		if err != nil {
+			v.errorf("selffact %s: %v", sf.Label, err)
+			continue
+		}
+		if st != nil {
+			st.assume(g)
+		} else {
+			v.D.facts = append(v.D.facts, g)
+		}
+	}
 }
 
 // defineAxioms: a contract clause `define f(self, x...) == body` on function F gives the spec function f its
@@ -465,6 +491,7 @@ func (v *Verifier) step(st *State, b *ssa.BasicBlock, i int, in ssa.Instruction)
 			ct = mk("Fn", name)
 		}
 		st.assume(tNot(mk("Bool", "=", ct, tNilF)))
+		v.selfFacts(fn, ct, st)
 		v.checkCaptures(st, fn, bs, in)
 		v.bind(st, x, ct)
 		return true
@@ -888,11 +915,8 @@ func (v *Verifier) convert(st *State, a *Term, from, to types.Type, in ssa.Instr
 		}
 		return v.wrapTo(a, to)
 	case fs == "Int" && isFloatSort(ts):
-		eb, sb := "11", "53"
-		if ts == sortF32 {
-			eb, sb = "8", "24"
-		}
-		return mk(ts, fmt.Sprintf("(_ to_fp %s %s)", eb, sb), mk("RoundingMode", "RNE"), mk("Real", "to_real", a))
+		// exact: the integer is taken as a 64-bit two's complement vector and rounded to nearest even
+		return intToFloat(a, ts)
 	case isFloatSort(fs) && isFloatSort(ts):
 		if fs == ts {
 			return a
@@ -903,15 +927,12 @@ func (v *Verifier) convert(st *State, a *Term, from, to types.Type, in ssa.Instr
 		}
 		return mk(ts, fmt.Sprintf("(_ to_fp %s %s)", eb, sb), mk("RoundingMode", "RNE"), a)
 	case isFloatSort(fs) && ts == "Int":
-		// Go: truncation toward zero when representable, otherwise implementation-defined (havoc)
+		// Go: truncation toward zero when the value is representable in the target type, otherwise the result is
+		// implementation-defined (modelled as arbitrary)
 		r := v.Y.fresh(v.D, "f2i", "Int")
 		v.addTypeFacts(st, r, to)
-		re := mk("Real", "fp.to_real", a)
-		tr := mk("Int", "ite", mk("Bool", ">=", re, mk("Real", "0.0")), mk("Int", "to_int", re), mk("Int", "-", mk("Int", "to_int", mk("Real", "-", re))))
 		lo, hi, _ := intRange(tb)
-		finite := tNot(tOr(mk("Bool", "fp.isNaN", a), mk("Bool", "fp.isInfinite", a)))
-		inRange := tAnd(finite, mk("Bool", "<=", bigLit(lo), tr), mk("Bool", "<=", tr, bigLit(hi)))
-		st.assume(tImp(inRange, tEq(r, tr)))
+		st.assume(tImp(floatInRange(a, lo, hi), tEq(r, floatTrunc(a))))
 		return r
 	case fs == "String" && ts == "String":
 		return a
@@ -953,6 +974,50 @@ func (v *Verifier) convert(st *State, a *Term, from, to types.Type, in ssa.Instr
 	name := "zz_conv_" + sortTag(fs) + "_to_" + sortTag(ts)
 	v.D.declFun(name, []string{fs}, ts)
 	return mk(ts, name, a)
+}
+
+func fpLit(sort, real string) *Term {
+	eb, sb := "11", "53"
+	if sort == sortF32 {
+		eb, sb = "8", "24"
+	}
+	return mk(sort, fmt.Sprintf("((_ to_fp %s %s) RNE %s)", eb, sb, real))
+}
+
+func realLit(dec string) string {
+	if strings.HasPrefix(dec, "-") {
+		return "(- " + dec[1:] + ".0)"
+	}
+	return dec + ".0"
+}
+
+// intToFloat: exact conversion through a signed 64-bit vector
+func intToFloat(a *Term, ts string) *Term {
+	eb, sb := "11", "53"
+	if ts == sortF32 {
+		eb, sb = "8", "24"
+	}
+	return mk(ts, fmt.Sprintf("(_ to_fp %s %s)", eb, sb), mk("RoundingMode", "RNE"), mk("(_ BitVec 64)", "(_ int2bv 64)", a))
+}
+
+// floatInRange: the float (any width) is a number whose truncation lies in [lo, hi]
+func floatInRange(a *Term, lo, hi string) *Term {
+	l, _ := new(big.Int).SetString(lo, 10)
+	h, _ := new(big.Int).SetString(hi, 10)
+	h1 := new(big.Int).Add(h, big.NewInt(1))
+	l1 := new(big.Int).Sub(l, big.NewInt(1))
+	// lo-1 < a < hi+1 ; both bounds are exactly representable for the Go integer types (powers of two) except lo-1,
+	// so use a >= lo instead when lo is a power of two boundary
+	return tAnd(tNot(mk("Bool", "fp.isNaN", a)), tNot(mk("Bool", "fp.isInfinite", a)),
+		tOr(mk("Bool", "fp.geq", a, fpLit(a.Sort, realLit(l.String()))), mk("Bool", "fp.gt", a, fpLit(a.Sort, realLit(l1.String())))),
+		mk("Bool", "fp.lt", a, fpLit(a.Sort, realLit(h1.String()))))
+}
+
+// floatTrunc: truncation toward zero as a mathematical integer (meaningful when in the signed 64-bit range)
+func floatTrunc(a *Term) *Term {
+	b := mk("(_ BitVec 64)", "(_ fp.to_sbv 64)", mk("RoundingMode", "RTZ"), a)
+	u := mk("Int", "bv2int", b)
+	return mk("Int", "ite", mk("Bool", "bvslt", b, mk("(_ BitVec 64)", "#x0000000000000000")), mk("Int", "-", u, mk("Int", "18446744073709551616")), u)
 }
 
 // ---- type assertions
